@@ -16,12 +16,12 @@ import fastavro._read_py as R
 import fastavro.io.json_encoder as JE
 import fastavro.io.json_decoder as JD
 
-SCHEMAS = ["prim_int", "prim_string", "prim_null", "prim_bytes", "prim_double", "prim_boolean", "enum", "fixed", "rec_flat",
+SCHEMAS = ["rec_defaults4", "rec_defaults5", "rec_defaults3", "prim_int", "prim_string", "prim_null", "prim_bytes", "prim_double", "prim_boolean", "enum", "fixed", "rec_flat",
            "rec_empty", "rec_floats", "rec_defaults", "rec_defaults2", "pair_array_int", "pair_array_record", "pair_map_long",
            "pair_map_record", "pair_array_union", "pair_map_union", "pair_field_union", "pair_field_map", "pair_field_array",
            "union_prims", "union_two_recs", "union_named_mix", "union_arr_map", "chain_arr_arr", "chain_rec_union_rec_arr",
            "ref_after_def", "ns_inherit", "ns_dotted", "rec_list", "rec_tree", "rec_mutual", "map_key_is_field", "err_type"]
-QUICK = ["prim_int", "prim_bytes", "enum", "fixed", "rec_flat", "rec_empty", "rec_defaults", "pair_array_record", "pair_map_long",
+QUICK = ["prim_int", "prim_bytes", "enum", "fixed", "rec_flat", "rec_empty", "rec_defaults", "rec_defaults4", "rec_defaults5", "pair_array_record", "pair_map_long",
          "pair_field_union", "union_two_recs", "union_named_mix", "ref_after_def", "ns_inherit", "rec_list", "rec_tree",
          "map_key_is_field", "pair_map_union"]
 
@@ -171,13 +171,26 @@ def ob_defaults(c, v, mask):
     # expected: the datum with those fields replaced by their defaults = decode of the stripped JSON by the rules
     want = _decode_json(c["ir"], j2, c["names"])
     text = _native_dumps(j2)
+    text = text + "\n" + text  # the same document twice: defaults must be available for every record
+    sch = c["parsed"] if (mask & 1) else copy.deepcopy(c["schema"])
+    before = _native_dumps(_plain(sch))
     try:
-        back = list(JR.json_reader(io.StringIO(text), c["parsed"]))
+        back = list(JR.json_reader(io.StringIO(text), sch))
     except Exception as e:
         return False, f"json_reader raised {type(e).__name__}: {e} on {text!r} (defaulted keys removed)"
-    if not _same_by_value(back, [want]):
-        return False, f"json_reader returned {back!r}, expected {[want]!r} for {text!r}"
+    if not _same_by_value(back, [want, want]):
+        return False, f"json_reader returned {back!r}, expected {[want, want]!r} for {text!r}"
+    if _native_dumps(_plain(sch)) != before:
+        return False, f"json_reader modified the schema object it was given (defaults consumed) reading {text!r}"
     return True, ""
+
+
+def _plain(s):
+    if isinstance(s, list):
+        return [_plain(x) for x in s]
+    if isinstance(s, dict):
+        return {k: _plain(v) for k, v in s.items() if k != "__named_schemas"}
+    return s
 
 
 def _decode_json(node, j, names):
